@@ -32,9 +32,11 @@ pub enum Site {
     ScheduleIter = 6,
     /// `OpeningHours::schedule_at`: one day evaluated.
     ScheduleAt = 7,
+    /// `TimeDomainIterator::next`: one interval yielded.
+    IterNext = 8,
 }
 
-pub const SITES: usize = 8;
+pub const SITES: usize = 9;
 
 /// Payload used to unwind when an armed budget is exceeded.
 #[derive(Clone, Debug)]
